@@ -343,7 +343,8 @@ def run_check(spec, tier, base_seed):
     # 3. seeded search
     agg = Agg()
     if fam_specs:
-        agg = search(prop, fam_specs, tier, base_seed, max_runs, budget)
+        agg = search(prop, fam_specs, tier, base_seed, max_runs, budget,
+                     per_run_wall=180 if tier == 'quick' else 1200)
     nviol = 0
     seen_sigs = set()
     for v in sorted(agg.violations, key=lambda v: v['seed']):
